@@ -1,9 +1,11 @@
 import logging
 import itertools
 import math
+import re
 import signal
 from enum import Enum
 from qbee import grammar
+from qbee.exceptions import SyntaxError as QSyntaxError
 from pyparsing.exceptions import ParseException
 from .instrs import op_code_to_instr
 from .utils import format_number
@@ -1239,6 +1241,17 @@ class QvmCpu:
             value = float(literal.eval())
         except ParseException:
             value = 0.0
+        except (QSyntaxError, ValueError):
+            # a numeral the compiler's literal rules reject because
+            # it does not fit the literal's type ("1e39" is too big
+            # for a SINGLE literal) still has a DOUBLE value
+            m = re.match(
+                r'\s*[+-]?(\d+\.?\d*|\.\d+)([eEdD][+-]?\d+)?', string)
+            text = m.group(0) if m else '0'
+            value = float(text.lower().replace('d', 'e'))
+        if math.isinf(value):
+            self.trap(TrapCode.INVALID_CELL_VALUE,
+                      type=CellType.DOUBLE, value=value)
         self.push(CellType.DOUBLE, value)
 
     def _exec_sign(self):
